@@ -3,6 +3,7 @@ CONSTANTS Times <- McTimesW
  ExpChoices <- McExp
  OfferMenu <- McMenuW
  MaxBlocks = 4
+ MaxBoots = 1
  DupCheck = TRUE
  PayloadIdentity = TRUE
 INVARIANTS AtMostOnce InWindow ForkFree
